@@ -10,7 +10,7 @@ from __future__ import annotations
 
 import json
 
-from . import c01, loadpipe
+from . import c01, loadpipe  # noqa: I001
 from .core import Check
 
 LEVEL = "exploration"
@@ -24,9 +24,53 @@ def run(chk: Check) -> None:
     )
     chk.assumptions += ["the stdlib module list is sys.stdlib_module_names of the observing interpreter", "import statements are found with ast at any nesting depth, including TYPE_CHECKING blocks"]
     c01.run_family(chk, ("C12.",), runtime=True, entries=False)
+    shared_core_history(chk)
     chk.require(chk.cov["clauses_checked"].get("import_statements", 0) > 0, "no import statement was judged")
     chk.require(chk.cov["clauses_checked"].get("runtime_files", 0) > 0, "no runtime file was compared")
     chk.cov["exhaustive"] = False
+
+
+def shared_core_history(chk: Check) -> None:
+    """RuntimeVerbatim must hold after ANY generation, also into a core package that already exists: generate client alpha
+    with an external core, tamper with runtime modules of that core (an older release / a local edit), generate client
+    beta (and regenerate alpha) into the same core, then compare every runtime file with the shipped one."""
+    from pathlib import Path
+
+    from . import core as hcore, features
+
+    root = chk.scratch.sub("corehist")
+    spec = features.build(["many_errors"])
+    layouts = [("ha.alpha", "ha.beta", "ha.core"), ("alpha1", "beta1", "sharedcore1"), ("hb.x.alpha", "hb.x.beta", "hb.x.core")]
+    traces = []
+    for i, (pa, pb, corep) in enumerate(layouts):
+        r = str(root / f"h{i}")
+        g = hcore.parallel_py(chk.scratch, "harness.w_gen", [{"id": f"ha{i}", "root": r, "spec": spec, "pkg": pa, "core": corep, "force": True, "nopp": True}])[0]
+        chk.require(g["ok"], f"history setup generation failed: {g['err']}")
+        cdir = Path(r).joinpath(*corep.split("."))
+        for rel, how in (("http_transport.py", "append"), ("auth/plugins.py", "append"), ("utils.py", "older")):
+            p = cdir / rel
+            txt = p.read_text()
+            p.write_text(txt + "\n# stale local edit\n" if how == "append" else txt.replace("class ", "class  ", 1))
+        for step, (pkg, force) in enumerate(((pb, True), (pa, True))):
+            g = hcore.parallel_py(chk.scratch, "harness.w_gen", [{"id": f"hs{i}_{step}", "root": r, "spec": spec, "pkg": pkg, "core": corep, "force": force, "nopp": True}])[0]
+            chk.require(g["ok"], f"history generation failed: {g['err']}")
+            rec = {"sc": {"features": ["many_errors"], "layout": {"history": f"tampered shared core, step {step}", "core": corep}, "strategy": "operationId"}, "job": {"id": f"hs{i}_{step}", "root": r, "pkg": pkg, "core": corep}, "gen": g, "obs": {"compile": {"errors": []}}}
+            traces += loadpipe.build_events(chk, [rec], {}, runtime=True, nopp=True)
+            # restore the tampering for the next step so that each step is judged on its own
+            if step == 0:
+                for rel in ("http_transport.py", "auth/plugins.py"):
+                    p = cdir / rel
+                    p.write_text(p.read_text() + "\n# stale local edit\n")
+    vs = loadpipe.judge(chk, traces, "shared-core-history")
+    by_id = {t["id"]: t for t in traces}
+    for v in vs:
+        chk.count()
+        chk.clause("runtime_files_history", v["nruntime"])
+        for f in v["fails"]:
+            if f["clause"].startswith("C12."):
+                loc = dict(f["locus"])
+                loc["history"] = "existing_core"
+                chk.fail(f["clause"], loc, by_id[v["id"]]["_rec"]["sc"], "")
 
 
 def replay(chk: Check, path: str) -> None:
